@@ -174,7 +174,7 @@ class C16(PropBase):
             gr = GG.to_y0(case["g"])
             before = GG.snapshot(gr)
             extra = {GG.V(v) for v in case["lat"]}
-            res = evans_simplify(gr, latents=extra) if (extra or len(case["g"]["nodes"]) % 2) else evans_simplify(gr)
+            res = evans_simplify(gr, latents=GG.present(sorted(extra, key=str), "evans")) if (extra or len(case["g"]["nodes"]) % 2) else evans_simplify(gr)
             dag = gr.to_latent_variable_dag()
             for node, data in dag.nodes(data=True):
                 if node in extra:
